@@ -398,7 +398,17 @@ func genMetric(r *rand.Rand, mode string) metricIn {
 			}
 		}
 		f.Lits = make([]bool, n)
-		if r.Intn(3) == 0 {
+		if r.Intn(12) == 0 {
+			// a signed literal opening a chain of powers: -2 ^ 3 ^ vector(2) is (-2) ^ (3 ^ 2); the sign belongs to the literal
+			f.Operands = []Ints{[][]int{{-2, 1}, {2, 1}, {-3, 1}, {-1, 2}}[r.Intn(4)], [][]int{{3, 1}, {2, 1}, {1, 1}}[r.Intn(3)], [][]int{{2, 1}, {1, 1}, {3, 1}}[r.Intn(3)]}
+			f.Ops = []string{"pow", "pow"}
+			f.Lits = []bool{true, true, false}
+			f.Open, f.Close, f.Dbl = 0, 0, false
+			if r.Intn(3) == 0 {
+				f.Operands, f.Ops, f.Lits = f.Operands[:2], f.Ops[:1], []bool{true, false}
+				f.Operands[1] = Ints{3, 1}
+			}
+		} else if r.Intn(3) == 0 {
 			// scalar literals among the operands (arithmetic only: set operators take no scalars; the first operand stays a
 			// vector so that the result is one): parentheses must survive whatever the evaluation does with literal operands
 			arith := []string{"add", "sub", "mul", "div", "mod", "pow", "mul", "mod"}
@@ -655,6 +665,22 @@ func genVecAggCase(r *rand.Rand) ([]MemRec, mexprIn, []evalIn) {
 	case 1:
 		e = &mexprIn{T: "vecagg", Op: []string{"sort", "sort_desc"}[r.Intn(2)], Grp: noGrp(), E: e,
 			Sel: []matcherIn{}, Stages: []stageIn{}, Param: Ints{0, 1}, V: Ints{0, 1}, Unwrap: unwrapIn{Label: Ints{}}}
+	}
+	if r.Intn(3) == 0 {
+		// groups that exist at one step and not at the next: records on even seconds, window edges on odd seconds
+		for i := range recs {
+			recs[i].TS = []int{mBase + 2*(i+1) + 10*r.Intn(3), 0}
+		}
+		sort.SliceStable(recs, func(a, b int) bool { return recs[a].TS[0] < recs[b].TS[0] })
+		for i := range recs {
+			recs[i].ID = i + 1
+		}
+		for x := e; x != nil; x = x.E {
+			if x.T == "range" {
+				x.Range = 4 + 2*r.Intn(3)
+			}
+		}
+		return recs, *e, []evalIn{{Start: mBase + 1, End: mBase + 49, Step: 6}, {Start: mBase + 13, End: mBase + 13, Step: 0}}
 	}
 	return recs, *e, wideEvals
 }
